@@ -158,6 +158,9 @@ def gen_save(tier, seed):
         specs = [s for s in specs if (s.get('ny'), s.get('nx')) in ((2, 3), (1, 4))]
     for k, spec in enumerate(specs):
         yield {'spec': spec, 'units': units[k % len(units)]}
+        if k % 3 == 0:
+            # the time coordinate stored as a double without a fill value, the way EMS writes it
+            yield {'spec': spec, 'units': units[(k + 1) % len(units)], 'time_dtype': 'float64'}
 
 
 def raw_attrs(path):
@@ -183,6 +186,9 @@ def test_save(inp):
         if tname is not None:
             ds[tname].encoding['units'] = inp['units']
             ds[tname].encoding['calendar'] = 'proleptic_gregorian'
+            if inp.get('time_dtype'):
+                ds[tname].encoding['dtype'] = inp['time_dtype']
+                ds[tname].encoding['_FillValue'] = None
         src = os.path.join(tmp, 'src.nc')
         ds.to_netcdf(src)                       # a file "from a model"
         orig = emsarray.open_dataset(src)
